@@ -388,6 +388,27 @@ static void op_handover(const V &a, V &r) {
     for (auto &it : late) rm(it); for (auto &it : items) rm(it);
     r.push_back(m1); r.push_back(mrow); r.push_back(mg); r.push_back(m2); r.push_back(ops);
 }
+// x87 <spec> seed : a fresh thread whose FIRST FFT operation (an unrelated product) runs while the x87 control word asks for 53-bit precision and
+//   round-toward-zero (legacy numerical code, a language runtime, an emulation layer); the control word is restored, then the thread evaluates.
+//   The library computes in SSE/AVX arithmetic, which ignores that control word: the outputs are those of the reference.  prints mismatches, evaluations
+static void op_x87(const V &a, V &r) {
+    need_keys(a);
+    const int n = cur.params->in_out_params->n; const ll *v = a.data() + SPECN;
+    std::vector<Work> ws; make_work(ws, 6, n, (unsigned) v[0]);
+    for (auto &wk : ws) eval_work(wk, wk.ref, n);
+    uint64_t fref = unrelated_fft(77 + (unsigned) v[0], 2);
+    std::atomic<long> mism(0), evals(0);
+    std::thread t([&]() {
+        unsigned short old = 0, neu = 0; __asm__ volatile("fnstcw %0" : "=m"(old));
+        neu = (unsigned short) ((old & ~0x0F00) | 0x0200 | 0x0C00);            // precision control 53 bits, rounding control toward zero
+        __asm__ volatile("fldcw %0" : : "m"(neu));
+        uint64_t f = unrelated_fft(77 + (unsigned) v[0], 2);
+        __asm__ volatile("fldcw %0" : : "m"(old));
+        if (f != fref) mism++; evals++;
+        for (auto &wk : ws) { std::vector<int32_t> o; eval_work(wk, o, n); evals++; if (o != wk.ref) mism++; } });
+    t.join();
+    r.push_back(mism); r.push_back(evals);
+}
 // history <spec> seed : the same evaluations after different histories on the same thread
 static void op_history(const V &a, V &r) {
     need_keys(a);
@@ -499,6 +520,7 @@ int main() {
         else if (op == "nomain") op_nomain(a, r);
         else if (op == "handover") op_handover(a, r);
         else if (op == "churn") op_churn(a, r);
+        else if (op == "x87") op_x87(a, r);
         else if (op == "history") op_history(a, r);
         else if (op == "footprint") op_footprint(a, r);
         else if (op == "poison") op_poison(a, r);
